@@ -204,7 +204,11 @@ pub fn run(tier: Tier) -> i32 {
     contents.par_chunks(256).for_each(|chunk| {
         let mut acc = Acc::default();
         for c in chunk {
-            for l in [L6A, L3A, Lbl::Bcast] {
+            let mut lbls = vec![L6A, L3A, Lbl::Bcast];
+            if c.len() <= 1 {
+                lbls.extend(special_labels());
+            }
+            for l in lbls {
                 for row in [Row::Plain(true), Row::AfterSame] {
                     if row == Row::AfterSame && !l.is_addr() {
                         continue;
